@@ -1588,7 +1588,7 @@ func validatedByCallee(g *ssa.Function, st *ssa.Store, sv ssa.Value, guardsOf fu
 			return
 		}
 		for i, a := range call.Common().Args {
-			if !(canon(a) == sv || a == st.Val) || i >= len(h.Params) {
+			if !(canon(a) == sv || a == st.Val || sameCellLoad(a, st.Val)) || i >= len(h.Params) {
 				continue
 			}
 			// h: every return with a nil error lies behind a guard on the parameter
@@ -1641,4 +1641,15 @@ func validatedByCallee(g *ssa.Function, st *ssa.Store, sv ssa.Value, guardsOf fu
 		}
 	})
 	return found
+}
+
+// sameCellLoad: two loads of one local cell (a variable filled through its address, read twice).
+func sameCellLoad(a, b ssa.Value) bool {
+	la, ok1 := a.(*ssa.UnOp)
+	lb, ok2 := b.(*ssa.UnOp)
+	if !ok1 || !ok2 || la.Op != token.MUL || lb.Op != token.MUL {
+		return false
+	}
+	al, ok := la.X.(*ssa.Alloc)
+	return ok && la.X == lb.X && !al.Heap || ok && la.X == lb.X
 }
